@@ -72,7 +72,9 @@ Bind(n, fresh) ==
     /\ dev' = [t \in DOMAIN L.dev |-> [vals |-> L.dev[t].vals, boot |-> L.dev[t].boot, maxeid |-> L.dev[t].maxeid]]
     /\ failq' = [t \in DOMAIN L.dev |-> L.dev[t].failq]
     /\ q' = QOf(L)
-    /\ infl' = EmptyFn
+    \* reconciles in flight (fine-grained steps): what they will still do is not observable, that they are
+    \* in flight is (the state is not quiescent)
+    /\ infl' = [a \in Range(L.busy) |-> [c |-> "?", id |-> "?", plan |-> << >>]]
     /\ h' = [n2 \in DOMAIN L.h |-> HOf(L.h[n2])]
     /\ devlog' = (IF fresh THEN << >> ELSE devlog) \o [k \in DOMAIN L.devlog |-> DevEntryOf(L.devlog[k])]
     /\ pluglog' = (IF fresh THEN << >> ELSE pluglog) \o [k \in DOMAIN L.plug |-> [id |-> L.plug[k].id, leaves |-> L.plug[k].leaves, valid |-> L.plug[k].valid]]
@@ -117,11 +119,18 @@ T_GetIsLiveView == probe.obs => \A t \in DOMAIN probe.get : probe.get[t] = GetVi
 \* the real quiescence probe (every record reconciled once more) caused no effect
 T_ProbeClean == probe.act = "probe" => probe.n = 0
 
+\* On real traces "nothing more happens" is an OBSERVATION: the drain of the real work sets ended with nothing pending
+\* (quiet) or with every pending id reconciled without any effect since the last effect (spin).  The clauses that
+\* speak about the idle system are evaluated where the specification says the state is stable OR the real code
+\* was observed at its fixed point - a change that makes the real controllers stop early must not make them vacuous.
+RealFixpoint == probe.act = "drain" /\ (probe.quiet \/ probe.spin) /\ up /\ infl = EmptyFn
+TStable == Stable \/ RealFixpoint
+
 StateNames == {"C01_NoPartialCommit", "C01_FailedNeverMerged", "C01_AtomicAtQuiescence", "C01_CommittedIsReadable",
                "C01_ReportedFailed", "C02_MergeOrdered", "C02_ApplyOrdered", "C02_ApplyAfterPredecessors",
                "C02_ApplyOnlyMerged", "C04_Converged", "C05_ValidatedBeforeMerged", "C05_ValidatedIsReadable",
                "C05_RejectedChangesNothing", "C06_RollbackRestores", "C06_RollbackRefused", "C07_MergedOnce",
-               "C07_NoneSkipped", "C07_SameDecision", "C07_SameConfiguration", "C08_TruthfulSuccess",
+               "C07_NoneSkipped", "C07_NotBlocked", "C07_DeviceConverged", "C07_SameDecision", "C07_SameConfiguration", "C08_TruthfulSuccess",
                "C08_TruthfulFailure", "C08_NoHang", "C08_ResponseContent", "C09_QuiescentIsFixpoint",
                "C09_AllTerminal", "C09_ProbeClean", "C10_OneMasterPerTerm", "C11_OnlyRealRefusalsFail",
                "C11_TxReportsClass", "C11_RefusalFails", "C03_GetIsLiveView"}
@@ -129,34 +138,36 @@ StateNames == {"C01_NoPartialCommit", "C01_FailedNeverMerged", "C01_AtomicAtQuie
 StateClause(name) ==
     CASE name = "C01_NoPartialCommit" -> C01_NoPartialCommit
       [] name = "C01_FailedNeverMerged" -> C01_FailedNeverMerged
-      [] name = "C01_AtomicAtQuiescence" -> C01_AtomicAtQuiescence
-      [] name = "C01_CommittedIsReadable" -> C01_CommittedIsReadable
+      [] name = "C01_AtomicAtQuiescence" -> C01_AtomicAtQuiescenceAt(TStable)
+      [] name = "C01_CommittedIsReadable" -> C01_CommittedIsReadableAt(TStable)
       [] name = "C01_ReportedFailed" -> C01_ReportedFailed
       [] name = "C02_MergeOrdered" -> C02_MergeOrdered
       [] name = "C02_ApplyOrdered" -> C02_ApplyOrdered
       [] name = "C02_ApplyAfterPredecessors" -> C02_ApplyAfterPredecessors
       [] name = "C02_ApplyOnlyMerged" -> C02_ApplyOnlyMerged
-      [] name = "C04_Converged" -> C04_Converged
+      [] name = "C04_Converged" -> C04_ConvergedAt(TStable)
       [] name = "C05_ValidatedBeforeMerged" -> C05_ValidatedBeforeMerged
       [] name = "C05_ValidatedIsReadable" -> C05_ValidatedIsReadable
       [] name = "C05_RejectedChangesNothing" -> C05_RejectedChangesNothing
       [] name = "C06_RollbackRestores" -> C06_RollbackRestores
       [] name = "C06_RollbackRefused" -> C06_RollbackRefused
       [] name = "C07_MergedOnce" -> C07_MergedOnce
-      [] name = "C07_NoneSkipped" -> C07_NoneSkipped
-      [] name = "C07_SameDecision" -> C07_SameDecision
-      [] name = "C07_SameConfiguration" -> C07_SameConfiguration
+      [] name = "C07_NoneSkipped" -> C07_NoneSkippedAt(TStable)
+      [] name = "C07_SameDecision" -> C07_SameDecisionAt(TStable)
+      [] name = "C07_SameConfiguration" -> C07_SameConfigurationAt(TStable)
+      [] name = "C07_NotBlocked" -> C07_NotBlockedAt(TStable)
+      [] name = "C07_DeviceConverged" -> C07_DeviceConvergedAt(TStable)
       [] name = "C08_TruthfulSuccess" -> C08_TruthfulSuccess
       [] name = "C08_TruthfulFailure" -> C08_TruthfulFailure
       [] name = "C08_NoHang" -> C08_NoHang
       [] name = "C08_ResponseContent" -> C08_ResponseContent
       [] name = "C09_QuiescentIsFixpoint" -> C09_QuiescentIsFixpoint
-      [] name = "C09_AllTerminal" -> C09_AllTerminal
+      [] name = "C09_AllTerminal" -> C09_AllTerminalAt(TStable)
       [] name = "C09_ProbeClean" -> T_ProbeClean
       [] name = "C10_OneMasterPerTerm" -> C10_OneMasterPerTerm
       [] name = "C11_OnlyRealRefusalsFail" -> C11_OnlyRealRefusalsFail
       [] name = "C11_TxReportsClass" -> C11_TxReportsClass
-      [] name = "C11_RefusalFails" -> C11_RefusalFails
+      [] name = "C11_RefusalFails" -> C11_RefusalFailsAt(TStable)
       [] name = "C03_GetIsLiveView" -> T_GetIsLiveView
 
 \* action clauses, evaluated on the recorded step (unprimed = before, primed = after)
@@ -175,7 +186,10 @@ TraceNext ==
     /\ l < Len(Trace)
     /\ Bind(l + 1, Trace[l + 1].act.k = "init")
     /\ viol' = IF Trace[l + 1].act.k = "init" THEN {} ELSE {name \in WantedAct : ~ActClause(name)}
-    /\ drift' = IF CheckDrift THEN ~(Next \/ IsReset \/ IsForce \/ UNCHANGED vars) ELSE FALSE
+    \* step conformance is decided for whole reconciles; steps of fine-grained reconciles (begin / exec, and whatever
+    \* happens while one is in flight) are validated through the state clauses only
+    /\ drift' = IF CheckDrift /\ infl = EmptyFn /\ Trace[l + 1].act.k \notin {"begin", "exec"}
+                THEN ~(Next \/ IsReset \/ IsForce \/ UNCHANGED vars) ELSE FALSE
 
 TraceSpec == TraceInit /\ [][TraceNext]_tvars
 
